@@ -175,6 +175,10 @@ def gen_sources(rng, n):
         if '"' in e:
             continue
         out.append(decorate(r, '<v\n title="{{ %s }}"\tdata-k="😀">é{{ %s }}😀</v>' % (e, e)))
+        # a binding followed by static text: the text is a literal of its own
+        out.append(decorate(r, '<v title="{{ %s }}q&amp;" data-k="{{ %s }}{{ %s }}z">{{ %s }}t&lt;😀</v>' % (e, e, e, e)))
+    for e in ["x + 's'", "'s' + x", "x + ''", "a + b + 't'", "x + 's' + 't'", "(x + 's')", "f(x) + '&'"]:
+        out.append(decorate(rng.fork(("lit", e)), '<v title="{{ %s }}q&amp;" data-k="{{ %s }}{{ %s }}z">{{ %s }}t&lt;😀</v>' % (e, e, e, e)))
     return out
 
 
